@@ -358,6 +358,55 @@ fn run_io(st: &StateSpec) -> CaseResult {
         .class(format!("msgs{}", st.input.len().min(10) / 3 * 3)))
 }
 
+/// Registered INPUT.* / OUTPUT.* names beyond the eight documented ones (none on the pinned tree):
+/// whatever such an instruction does, an INPUT.* instruction must not drop or reorder pending
+/// OUTPUT messages, and an OUTPUT.* instruction must not take INPUT messages out of turn
+/// ("none lost silently", "strictly first-in first-out").
+fn unlisted_io(ctx: &Ctx, n: u64) -> SubReport {
+    let extra: Vec<String> = crate::exec::registry_names().into_iter().filter(|x| (x.starts_with("INPUT.") || x.starts_with("OUTPUT.")) && !IO_INSTRS.contains(&x.as_str())).collect();
+    if extra.is_empty() {
+        let mut rep = SubReport::new("unlisted-io-instructions");
+        rep.notes.push("the registry holds no INPUT.* / OUTPUT.* instruction beyond the eight documented ones: nothing to run".into());
+        return rep;
+    }
+    let names = extra.clone();
+    let mut rep = run_sharded(
+        ctx,
+        "unlisted-io-instructions",
+        n,
+        move || (prop::sample::select(names.clone()), io_program()),
+        |(name, st): &(String, StateSpec)| {
+            let mut s = st.clone();
+            s.exec.clear();
+            s.ints = vec![1, 0, 2];
+            s.bvecs = vec![vec![true, false]];
+            s.ivecs = vec![vec![3]];
+            let after = crate::exec::step_named_on(&s, name).map_err(|(l, m)| Fail::new(format!("C17/{}/panic@{}", name, l), m))?;
+            fn subsequence(small: &[MsgSpec], big: &[MsgSpec]) -> bool {
+                let mut it = big.iter();
+                small.iter().all(|x| it.any(|y| y == x))
+            }
+            if name.starts_with("INPUT.") && !subsequence(&s.output, &after.output) {
+                return Err(Fail::new(format!("C17/{}/pending-output-lost", name), format!("{} changed the pending OUTPUT messages {:?} -> {:?}", name, s.output, after.output)));
+            }
+            if name.starts_with("OUTPUT.") {
+                let k = after.input.len();
+                let ok = k <= s.input.len() && (after.input[..] == s.input[..k] || after.input[..] == s.input[s.input.len() - k..]);
+                if !ok {
+                    return Err(Fail::new(format!("C17/{}/input-taken-out-of-turn", name), format!("{} changed the INPUT queue {:?} -> {:?}", name, s.input, after.input)));
+                }
+            }
+            let mut h = Fnv::new();
+            h.str(name);
+            h.u64(s.digest());
+            Ok(CaseOut::new(!s.output.is_empty() || !s.input.is_empty(), h.0))
+        },
+        |(name, st)| json!({"instruction": name, "state": st.to_json()}),
+    );
+    rep.notes.push(format!("registered but undocumented IO instructions: {:?}", extra));
+    rep
+}
+
 pub fn run(ctx: &Ctx) -> PropReport {
     let mut rep = PropReport::new(
         "PushBuffer<i32> API histories (capacity 1..5, both kinds) and INPUT/OUTPUT instruction sequences over 0..10 generated messages; non-trivial = at least one wrap-around (pushes >= capacity) together with a pop or forced push (buffer), or >= 2 queued messages with a NEXT or two WRITEs and >= 3 compared instructions (IO); distinct = hash of (capacity, kind, history) / state digest",
@@ -379,6 +428,7 @@ pub fn run(ctx: &Ctx) -> PropReport {
     for r in crate::props::incontext::run_all(ctx, ctx.tier.pick(40_000, 600_000)) {
         rep.push(r);
     }
+    rep.push(unlisted_io(ctx, ctx.tier.pick(20_000, 200_000)));
     rep
 }
 
